@@ -12,6 +12,7 @@ Edit kinds (the only things ever written into repository text):
   proof     inserted `proof { .. }` / `assert(..)` statements
   attr      inserted `#[verifier::..]` attributes
   epilogue  spec functions / proof functions appended after the file text (same module)
+  verus-syntax  the elided lifetime of a `const` / `static` item written out as `'static` (what the language rule says it is)
 """
 import re
 from rsrc import Edits, LostAnchor, find_fns, find_impl_blocks, find_code, match_bracket
